@@ -130,7 +130,10 @@ def doDr (l : Line) : Option String := do
   let P : DrP Rat RV RV :=
     { m := m, L := fun i => Mat.mulVec (fam As [] i), Ladj := fun i => Mat.mulVec (fam Ats [] i),
       proxF := pf.eval, proxGc := fun i => (fam ps .id i).eval, tau := tau, sigma := fam sigma 0,
-      lam := lam }
+      lam := lam,
+      proxLc := match Line.family l "pl" m parsePSpec with       -- `pl0= …`: the `l` terms are given
+        | some pls => if m = 0 || (l.get? "pl0").isNone then none else some (fun i => (fam pls .id i).eval)
+        | none => none }
   let v0 : Nat → RV := fun i => Vec.zero (Mat.rows (fam As [] i))
   let s := P.run (Vec.zero x0.length) n ⟨x0, v0, Vec.zero x0.length, []⟩
   some s!"ok log={showLog s.log} x={showVec s.x}"
@@ -151,7 +154,10 @@ def doFbpd (l : Line) : Option String := do
   let P : FbpdP Rat RV RV :=
     { m := m, L := fun i => Mat.mulVec (fam As [] i), Ladj := fun i => Mat.mulVec (fam Ats [] i),
       proxF := pf.eval, gradH := gh.eval, proxGc := fun i => (fam ps .id i).eval, tau := tau,
-      sigma := fam sigma 0 }
+      sigma := fam sigma 0,
+      gradLc := match Line.family l "gl" m parsePSpec with       -- `gl0= …`: the `l` terms are given
+        | some gls => if m = 0 || (l.get? "gl0").isNone then none else some (fun i => (fam gls .id i).eval)
+        | none => none }
   let v0 : Nat → RV := fun i => Vec.zero (Mat.rows (fam As [] i))
   let (s, log) := runLog (P.step fbpdXOldAliased) (·.x) n ⟨x0, v0, Vec.zero x0.length⟩ []
   some s!"ok log={showLog log} x={showVec s.x} v={showLog ((List.range m).map s.v)}"
@@ -169,6 +175,37 @@ def doApg (l : Line) : Option String := do
   let (_, log) := runLog (P.accStep Float.sqrt) (·.x) n (P.accInit (toF x0) (toF x0)) []
   some s!"ok log={";".intercalate (log.map showFloatVec)}"
 
+def optF (l : Line) (k : String) : Option (Option Float) :=
+  match l.get? k with
+  | none => some none
+  | some _ => (l.rat? k).map (fun r => some (ratToFloat r))
+
+instance : OfNat Float 9 := ⟨9.0⟩
+instance : OfNat Float 10 := ⟨10.0⟩
+
+/-- `pdhgstep Lnorm= [tau=] [sigma=]` (doubles) -/
+def doPdhgStep (l : Line) : Option String := do
+  let ln ← l.rat? "Lnorm"
+  let tau ← optF l "tau"
+  let sigma ← optF l "sigma"
+  let (t, s) := pdhgStepsize Float.sqrt (ratToFloat ln) tau sigma
+  some s!"ok tau={showF t} sigma={showF s}"
+
+/-- `drstep norms= [tau=] [sigma=]` (doubles) -/
+def doDrStep (l : Line) : Option String := do
+  let norms ← l.rats? "norms"
+  let tau ← optF l "tau"
+  let sigma ← match l.get? "sigma" with
+    | none => some none
+    | some _ => (l.rats? "sigma").map (fun v => some (v.map ratToFloat))
+  let (t, s) := drStepsize (norms.map ratToFloat) tau sigma
+  some s!"ok tau={showF t} sigma={showFloatVec s}"
+
+/-- `lwomega est=` (doubles): Landweber's default relaxation -/
+def doLwOmega (l : Line) : Option String := do
+  let e ← l.rat? "est"
+  some s!"ok omega={showF (landweberDefaultOmega (ratToFloat e))}"
+
 def handle (l : Line) : Option String :=
   match l.op with
   | "cg" => doCg l
@@ -180,6 +217,9 @@ def handle (l : Line) : Option String :=
   | "dr" => doDr l
   | "fbpd" => doFbpd l
   | "apg" => doApg l
+  | "pdhgstep" => doPdhgStep l
+  | "drstep" => doDrStep l
+  | "lwomega" => doLwOmega l
   | _ => none
 
 def main : IO Unit := driverLoop handle
